@@ -18,6 +18,13 @@ func verifEpilogue(h *vHandler, r step.RunningStep, sub *vSub) {
 	verifrt.Assert(r.State() == step.RunningStepStateFinished, "the step shows as finished after completion")
 	verifrt.Assert(verifrt.LiveGoroutines() == 0, "no goroutine of the loop step survives Close")
 	verifrt.Assert(sub.live == 0, "no item run is still in flight after Close")
+	// completeness (see the plugin provider's harness): nothing that depends on a stage of an ended step
+	// is left pending
+	if h.completes == 1 {
+		for _, st := range []string{"enabling", "disabled", "outputs", "failed", "closed"} {
+			verifrt.Assert(h.finished[st] || h.failed[st], "by the time the loop step has ended every stage is reported finished or declared impossible: "+st)
+		}
+	}
 }
 
 // C13: per-item results in item order, within the parallelism bound.
